@@ -527,8 +527,12 @@ func classifyLoop(p *Prog, pa *progAnalysis, f *ssa.Function, l *Loop) (string, 
 	}
 	// (tag queue)
 	if fnName(f) == "exif2.(*ifdReader).readIfd" {
-		if why := tagQueueSideConditions(p, pa); why == "" {
-			return "tag queue (reviewed ranking argument): every directory header consumes input before queueing tags, queued tags never point behind the read position, one queued tag is retired per iteration — both side conditions re-checked", ""
+		why := tagQueueSideConditions(p, pa)
+		if why == "" {
+			why = tagQueueRetire(p, f, l)
+		}
+		if why == "" {
+			return "tag queue (reviewed ranking argument): every directory header consumes input before queueing tags, queued tags never point behind the read position, one queued tag is retired per iteration — all three side conditions re-checked", ""
 		} else {
 			return "", "exif2.readIfd: side condition of the tag-queue ranking argument fails: " + why
 		}
@@ -1432,6 +1436,42 @@ func spilledResult(v ssa.Value, b *ssa.BasicBlock) (ssa.Value, *ssa.BasicBlock) 
 	return v, b
 }
 
+// read0BufArg: "" when v is the Read method's own buffer parameter or a prefix of it whose length is proved positive.
+func read0BufArg(e *E3, f *ssa.Function, v ssa.Value, depth int) string {
+	if v == nil || depth > 4 {
+		return "an untraced buffer"
+	}
+	if v == ssa.Value(f.Params[1]) {
+		return ""
+	}
+	switch t := v.(type) {
+	case *ssa.Slice:
+		if w := read0BufArg(e, f, t.X, depth+1); w != "" {
+			return w
+		}
+		if t.Low != nil {
+			if k, ok := constInt(t.Low); !ok || k != 0 {
+				return "a sub-slice of the caller's buffer with a moving start"
+			}
+		}
+		if t.High == nil {
+			return ""
+		}
+		if e.ProveLE(t.Block(), zeroT, e.termOf(t.High), -1) {
+			return ""
+		}
+		return "a prefix of the caller's buffer whose length (" + shortVal(t.High) + ") is not proved positive"
+	case *ssa.Phi:
+		for _, ed := range t.Edges {
+			if w := read0BufArg(e, f, ed, depth+1); w != "" {
+				return w
+			}
+		}
+		return ""
+	}
+	return "a buffer other than the caller's"
+}
+
 // ---- READ0: library readers never report "nothing read, no error" -----------------------------------------------
 
 // ruleRead0: io.ReadAll, io.Copy and every fill loop spin for ever on a reader that keeps returning (0, nil) for a
@@ -1472,7 +1512,19 @@ func ruleRead0(p *Prog, r *Report, fs []*ssa.Function) {
 							nm = sc.Name()
 						}
 						if nm == "Read" {
-							return
+							// the buffer handed on must be the caller's own, or a prefix of it of provably positive length:
+							// a Read of an empty prefix reports (0, nil) whatever the caller's buffer held
+							args := c.Call.Args
+							var bufArg ssa.Value
+							if len(args) > 0 {
+								bufArg = args[len(args)-1]
+							}
+							if why := read0BufArg(e, f, bufArg, 0); why == "" {
+								return
+							} else {
+								bad = fmt.Sprintf("the return at %s forwards the result of a Read into %s: a zero count with a nil error reaches the caller although its buffer is not empty, and io.ReadAll and every fill loop then spin", p.posStr(instrPos(ret)), why)
+								return
+							}
 						}
 					}
 				}
